@@ -7,7 +7,10 @@
 EXTENDS Integers, Sequences, FiniteSets, TLC, Json
 
 Keywords == {"DIRECT", "PROXY", "HTTP", "HTTPS", "SOCKS", "SOCKS4", "SOCKS5", "FOO", "direct"}
-HostPorts == {"h:1", "h6:1", "h", ":1", "h:", "none"}   \* well-formed, IPv6, no port, no host, empty port, absent
+\* well-formed, IPv6, no port, no host, empty port, absent; signed port, port out of range, something after the
+\* port, a path - and "_h:1": a second blank between keyword and host:port
+HostPorts == {"h:1", "h6:1", "h", ":1", "h:", "none", "h:+1", "h:99999", "h:1 x", "h:1/", "_h:1"}
+Malformed == {"h", ":1", "h:", "h:+1", "h:99999", "h:1 x", "h:1/"}
 Pads == {"", " "}
 Entry == [kw : Keywords, hp : HostPorts, lead : Pads, trail : Pads] \cup {[kw |-> "", hp |-> "none", lead |-> "", trail |-> ""]}
 
@@ -17,14 +20,15 @@ Scheme(kw) == CASE kw \in {"PROXY", "HTTP"} -> "http" [] kw = "HTTPS" -> "https"
 ParseEntry(e) ==
   IF e.kw \in {"", "DIRECT"} /\ e.hp = "none" THEN [ok |-> TRUE, mode |-> "direct", hp |-> "-"]
   ELSE IF e.hp = "none" THEN [ok |-> FALSE, mode |-> "-", hp |-> "-"]                  \* missing host:port
-  ELSE IF e.hp \in {"h"} THEN [ok |-> FALSE, mode |-> "-", hp |-> "-"]                  \* host:port cannot be split
+  ELSE IF e.hp \in Malformed THEN [ok |-> FALSE, mode |-> "-", hp |-> "-"]             \* no usable host and port
+  \* a second blank: mapped to the host:port that follows, or rejected - never a host that begins with a blank
+  ELSE IF e.hp = "_h:1" THEN [ok |-> TRUE, mode |-> Scheme(e.kw), hp |-> "h:1?"]
   ELSE [ok |-> TRUE, mode |-> Scheme(e.kw), hp |-> e.hp]                                \* unknown keyword -> direct
 \* which next hop the statement allows for the FIRST entry (C05)
 Hop(p) ==
   IF ~p.ok THEN "fail"
   ELSE IF p.mode = "direct" THEN "direct"
   ELSE IF p.mode \in {"socks", "socks4"} THEN "fail"       \* recognised but unsupported
-  ELSE IF p.hp \in {":1", "h:"} THEN "fail-or-dial-error"  \* syntactically split, unusable address
   ELSE p.mode
 
 CONSTANTS MaxEntries
@@ -33,7 +37,7 @@ Init == res \in UNION {[1..k -> Entry] : k \in 1..MaxEntries}
 Next == FALSE /\ UNCHANGED res
 All(r) == [i \in 1..Len(r) |-> ParseEntry(r[i])]
 \* sanity: the first entry decides the hop; a failing first entry never yields a hop
-FirstDecides == Hop(ParseEntry(res[1])) \in {"fail", "fail-or-dial-error", "direct", "http", "https", "socks5"}
+FirstDecides == Hop(ParseEntry(res[1])) \in {"fail", "direct", "http", "https", "socks5"}
 UnsupportedFails == res[1].kw \in {"SOCKS", "SOCKS4"} => Hop(ParseEntry(res[1])) = "fail"
 Emit == PrintT(ToJson([res |-> res, all |-> All(res),
                        allOk |-> (\A i \in 1..Len(res) : ParseEntry(res[i]).ok),
